@@ -145,6 +145,7 @@ type system struct {
 	m      *model
 	base   int64
 	closed bool
+	noCopy bool
 	buf    []byte
 }
 
@@ -161,7 +162,7 @@ func newSystem(c config, disableCopy bool) (*system, error) {
 	if err != nil {
 		return nil, err
 	}
-	s := &system{cfg: c, icpt: i, sink: &hk.RTPSink{}, feed: &rtcpFeed{}, m: &model{sent: map[int64]bool{}}, base: 1<<20 + int64(c.Start), buf: make([]byte, 1500)}
+	s := &system{cfg: c, icpt: i, sink: &hk.RTPSink{}, feed: &rtcpFeed{}, m: &model{sent: map[int64]bool{}}, base: 1<<20 + int64(c.Start), buf: make([]byte, 1500), noCopy: disableCopy}
 	s.info = &interceptor.StreamInfo{SSRC: ssrcMain, PayloadType: ptMain, RTCPFeedback: hk.NackFB}
 	if c.RTX {
 		s.info.SSRCRetransmission, s.info.PayloadTypeRetransmission = ssrcRTX, ptRTX
@@ -192,6 +193,23 @@ func (s *system) write(v int64) error {
 		return fmt.Errorf("write of %d: %d packets reached the transport, want exactly the packet written", uint16(v), len(got))
 	}
 	_ = n
+	if !s.noCopy {
+		// "as it was originally sent": the caller now reuses everything it passed (the documented exception is
+		// DisableCopy, where the caller promises not to)
+		for j := range p {
+			p[j] = 0xEE
+		}
+		for j := range h.CSRC {
+			h.CSRC[j] = 0xEEEEEEEE
+		}
+		for _, id := range h.GetExtensionIDs() {
+			x := h.GetExtension(id)
+			for j := range x {
+				x[j] = 0xEE
+			}
+		}
+		h.SequenceNumber, h.Timestamp, h.SSRC, h.PayloadType, h.Marker = 0xEEEE, 0xEEEEEEEE, 0xEEEEEEEE, 0x7E, !h.Marker
+	}
 	if !s.m.bound {
 		return nil
 	}
